@@ -364,16 +364,16 @@ func (r *Repository) ReconcileLocalRSLWithRemote(ctx context.Context, remoteName
 	localUpdatedRefs := set.NewSet[string]()
 	for _, entry := range localOnlyEntries {
 		slog.Debug(fmt.Sprintf("Identified local only entry that must be reapplied '%s'", entry.GetID().String()))
-		if entry, isRefEntry := entry.(*rsl.ReferenceEntry); isRefEntry {
-			localUpdatedRefs.Add(entry.RefName)
+		if entry, isReferenceUpdaterEntry := entry.(rsl.ReferenceUpdaterEntry); isReferenceUpdaterEntry {
+			localUpdatedRefs.Add(entry.GetRefName())
 		}
 	}
 
 	remoteUpdatedRefs := set.NewSet[string]()
 	for _, entry := range remoteOnlyEntries {
 		slog.Debug(fmt.Sprintf("Identified remote only entry '%s'", entry.GetID().String()))
-		if entry, isRefEntry := entry.(*rsl.ReferenceEntry); isRefEntry {
-			remoteUpdatedRefs.Add(entry.RefName)
+		if entry, isReferenceUpdaterEntry := entry.(rsl.ReferenceUpdaterEntry); isReferenceUpdaterEntry {
+			remoteUpdatedRefs.Add(entry.GetRefName())
 		}
 	}
 
@@ -391,6 +391,10 @@ func (r *Repository) ReconcileLocalRSLWithRemote(ctx context.Context, remoteName
 
 	// Apply local only entries on top of the new local RSL
 	// localOnlyEntries is in reverse order
+	// reappliedEntryIDs maps the ID of each local only entry to the ID of the
+	// entry it is reapplied as, so that annotations keep referring to (and
+	// revoking) the same entries after they are reapplied
+	reappliedEntryIDs := map[string]githash.Hash{}
 	for i := len(localOnlyEntries) - 1; i >= 0; i-- {
 		slog.Debug(fmt.Sprintf("Reapplying entry '%s'...", localOnlyEntries[i].GetID().String()))
 
@@ -403,19 +407,29 @@ func (r *Repository) ReconcileLocalRSLWithRemote(ctx context.Context, remoteName
 			if err := rsl.NewReferenceEntry(entry.RefName, entry.TargetID).Commit(r.r, sign); err != nil {
 				return fmt.Errorf("unable to reapply reference entry '%s': %w", entry.ID.String(), err)
 			}
+		case *rsl.PropagationEntry:
+			if err := rsl.NewPropagationEntry(entry.RefName, entry.TargetID, entry.UpstreamRepository, entry.UpstreamEntryID).Commit(r.r, sign); err != nil {
+				return fmt.Errorf("unable to reapply propagation entry '%s': %w", entry.ID.String(), err)
+			}
 		case *rsl.AnnotationEntry:
-			if err := rsl.NewAnnotationEntry(entry.RSLEntryIDs, entry.Skip, entry.Message).Commit(r.r, sign); err != nil {
+			rslEntryIDs := make([]githash.Hash, 0, len(entry.RSLEntryIDs))
+			for _, rslEntryID := range entry.RSLEntryIDs {
+				if reappliedEntryID, wasReapplied := reappliedEntryIDs[rslEntryID.String()]; wasReapplied {
+					rslEntryID = reappliedEntryID
+				}
+				rslEntryIDs = append(rslEntryIDs, rslEntryID)
+			}
+			if err := rsl.NewAnnotationEntry(rslEntryIDs, entry.Skip, entry.Message).Commit(r.r, sign); err != nil {
 				return fmt.Errorf("unable to reapply annotation entry '%s': %w", entry.ID.String(), err)
 			}
 		}
 
-		if slog.Default().Enabled(ctx, slog.LevelDebug) {
-			currentTip, err := r.r.GetReference(rsl.Ref)
-			if err != nil {
-				return fmt.Errorf("unable to get current tip of the RSL: %w", err)
-			}
-			slog.Debug("New entry ID for '%s' is '%s'", localOnlyEntries[i].GetID().String(), currentTip.String())
+		currentTip, err := r.r.GetReference(rsl.Ref)
+		if err != nil {
+			return fmt.Errorf("unable to get current tip of the RSL: %w", err)
 		}
+		reappliedEntryIDs[localOnlyEntries[i].GetID().String()] = currentTip
+		slog.Debug(fmt.Sprintf("New entry ID for '%s' is '%s'", localOnlyEntries[i].GetID().String(), currentTip.String()))
 	}
 
 	slog.Debug("Updated local RSL!")
